@@ -173,6 +173,31 @@ pub fn gen(prop: &str, seed: u64, thorough: bool, out: &mut impl Write) {
                 let v = any_u64(rng);
                 emit(out, &[55, v & 0xffff, (v >> 16) & 0xffff, v >> 32]);
             }
+            // iterating page/frame ranges is a safe operation too: every yielded page and the
+            // range's own bounds must stay valid, also for ranges that reach or cross the
+            // non-canonical gap or end at the last page / frame
+            let rn = if thorough { 60_000 } else { 3_000 };
+            for _ in 0..rn {
+                let k = rng.below(4);
+                let szk = rng.below(3);
+                let sz = size_of_k(szk);
+                let back = rng.below(6) * sz;
+                let fwd = rng.below(6) * sz;
+                let (s, e) = if k < 2 {
+                    match rng.below(4) {
+                        0 => (((1u64 << 47) - sz).wrapping_sub(back), 0xffff_8000_0000_0000u64.wrapping_add(fwd)),   // across the gap
+                        1 => (((1u64 << 47) - sz).wrapping_sub(back), (1u64 << 47) - sz),                             // up to the gap
+                        2 => (0u64.wrapping_sub(sz).wrapping_sub(back), 0u64.wrapping_sub(sz)),                       // up to the top
+                        _ => { let a = page_of(rng, szk); (a, sign_extend(a.wrapping_add(fwd) & !(sz - 1))) }
+                    }
+                } else {
+                    match rng.below(2) {
+                        0 => (((1u64 << 52) - sz).wrapping_sub(back), (1u64 << 52) - sz),
+                        _ => { let a = frame_of(rng, szk); (a, (a + fwd).min((1u64 << 52) - sz)) }
+                    }
+                };
+                emit(out, &[50, k, szk, s, e, 4 + rng.below(12)]);
+            }
             // programs of safe operations
             let progs = if thorough { 300_000 } else { 6_000 };
             for _ in 0..progs {
@@ -240,7 +265,8 @@ pub fn gen(prop: &str, seed: u64, thorough: bool, out: &mut impl Write) {
                 for e in [0u64, 1, 2, 255, 256, 510, 511] {
                     emit(out, &[46, s, e]);
                 }
-                for n in [0u64, 1, 2, 510, 511, 512, 513, u64::MAX, u64::MAX - 1, 1 << 16, (1 << 16) + 1] {
+                for n in [0u64, 1, 2, 510, 511, 512, 513, u64::MAX, u64::MAX - 1, 1 << 16, (1 << 16) + 1, 65535, 65534, 65024, 65025,
+                    65535 - s, 65536 - s, 65537 - s, (1 << 16) + 511 - s, (1 << 32) - 1, 1 << 32, (1u64 << 32) - s, (1u64 << 32) + 512 - s, (1u64 << 63), u64::MAX - s, (u64::MAX - s).wrapping_add(1)] {
                     emit(out, &[47, s, n]);
                     emit(out, &[48, s, n]);
                 }
@@ -444,6 +470,23 @@ fn judge(prop: &str, c: &[u64], a: &[i128]) -> (Option<&'static str>, bool) {
             54 => {
                 if ok1 && !is_phys(v as u64) { return (Some("PageTableEntry::addr returned bits 52-63 set"), true); }
                 (None, near(c[1]))
+            }
+            50 => {
+                // [is_empty, len.., size.., m, items.., panicked, start, end]: whatever was yielded and
+                // whatever the range holds afterwards must be a valid address (panics are not C03's concern)
+                let virt = c[1] < 2;
+                let bad = |x: i128| x >= 0 && if virt { !is_canonical(x as u64) } else { !is_phys(x as u64) };
+                let tail = if a.len() >= 3 { &a[a.len() - 2..] } else { &a[..0] };
+                if let Some(mpos) = (0..a.len()).find(|i| *i >= 3 && a[*i] >= 0 && (a[*i] as usize) + *i + 4 == a.len()) {
+                    let m = a[mpos] as usize;
+                    for x in &a[mpos + 1..mpos + 1 + m] {
+                        if bad(*x) { return (Some(if virt { "iterating a page range yielded a page with a non-canonical start address" } else { "iterating a frame range yielded a frame with address bits 52-63 set" }), true); }
+                    }
+                }
+                for x in tail {
+                    if bad(*x) { return (Some(if virt { "iterating a page range left a non-canonical address in the range" } else { "iterating a frame range left an address with bits 52-63 set in the range" }), true); }
+                }
+                (None, true)
             }
             52 | 53 => {
                 let mut nt = false;
